@@ -207,7 +207,7 @@ def _grid(rng, lo, hi, q):
 
 
 def gen_net(rng, n_nodes=None, libs=('lin', 'sat', 'osc', 'leak', 'integ'), max_edges=6, uniq='',
-            hier=False, build=None, delays=None, own_nt=True, stable=True):
+            hier=False, build=None, delays=None, own_nt=True, stable=True, per_node_ops=False):
     """flat (or two-level) circuit; every node has its own parameter values and every state variable a distinct
     initial value, so that positions and trajectories are attributable by value.
     delays: None or callable(rng) -> attrs dict fragment for an edge ({'delay':..,'spread':..})."""
@@ -236,7 +236,14 @@ def gen_net(rng, n_nodes=None, libs=('lin', 'sat', 'osc', 'leak', 'integ'), max_
                 var[c] = _grid(rng, -2.0, 2.0, 16) or 0.5
         for s in LIB[k]['state']:
             var[s] = pool.pop() / 64
-        spec['nts'][f'nt{i}{uniq}'] = {'name': f'nt{i}{uniq}', 'ops': [k + uniq], 'var': {k + uniq: var}}
+        if per_node_ops:
+            # every node has an operator of its own carrying its values as defaults; node templates without overrides
+            okey = f'{k}{i}{uniq}'
+            spec['ops'][okey] = {'lib': k, 'name': okey, 'defaults': {**LIB[k]['defaults'], **var}}
+            spec['nts'][f'nt{i}{uniq}'] = {'name': f'nt{i}{uniq}', 'ops': [okey], 'var': {}}
+            node_kind[nm] = (k, okey)
+        else:
+            spec['nts'][f'nt{i}{uniq}'] = {'name': f'nt{i}{uniq}', 'ops': [k + uniq], 'var': {k + uniq: var}}
         nodes[nm] = f'nt{i}{uniq}'
     def mk_edges(level_names, prefix_of, m):
         out, seen = [], set()
@@ -250,8 +257,13 @@ def gen_net(rng, n_nodes=None, libs=('lin', 'sat', 'osc', 'leak', 'integ'), max_
             a = {'weight': (_grid(rng, -2.0, 2.0, 32) or 0.75)}
             if delays:
                 a.update(delays(rng))
-            out.append([f'{s}/{sk}{uniq}/{LIB[sk]["out"]}', f'{t}/{tk}{uniq}/{LIB[tk]["in"]}', a])
+            (sk, sname) = sk if isinstance(sk, tuple) else (sk, sk + uniq)
+            (tk, tname) = tk if isinstance(tk, tuple) else (tk, tk + uniq)
+            out.append([f'{s}/{sname}/{LIB[sk]["out"]}', f'{t}/{tname}/{LIB[tk]["in"]}', a])
         return out
+    if per_node_ops:
+        used = {o for nt in spec['nts'].values() for o in nt['ops']}
+        spec['ops'] = {k_: v_ for k_, v_ in spec['ops'].items() if k_ in used}
     if hier and n >= 2:
         cut = rng.randint(1, n - 1)
         groups = {'ca': names[:cut], 'cb': names[cut:]}
